@@ -36,6 +36,31 @@ def is_param(t, idx=None):
 EVAL = [None]
 
 
+def _loop_map_form(t):
+    """t is the vector built by `let mut v = Vec::new()/with_capacity(..); for x in SRC { v.push(F(x)) }`:
+    -> (SRC, pushed term, item term) or None"""
+    if t.k != "phi":
+        return None
+    inits = [x for x in t.a if x.k == "call" and (x.a == ("<vec>",) or x.a[0].endswith("Vec::<T>::new") or x.a[0].endswith("::with_capacity"))]
+    muts = [x for x in t.a if x.k == "mutated"]
+    rest = [x for x in t.a if x not in inits and x not in muts and x.k != "loopvar"]
+    if len(inits) != 1 or len(muts) != 1 or rest:
+        return None
+    prev, eff = muts[0].a
+    if not (isinstance(eff, Tm) and eff.k == "call" and eff.a[0].endswith("::push") and len(eff.a) == 3):
+        return None
+    if not (prev.k == "phi" and all((x in inits) or x.k == "loopvar" for x in prev.a)):
+        return None
+    items = {y for y in subterms(eff.a[2]) if y.k == "call" and y.a[0] == "<item>" and len(y.a) == 2}
+    if len(items) != 1:
+        return None
+    item = next(iter(items))
+    src = item.a[1]
+    while src.k == "call" and len(src.a) == 2 and src.a[0].rsplit("::", 1)[-1] in ("into_iter", "iter"):
+        src = src.a[1]
+    return src, eff.a[2], item
+
+
 def ok_payload(t):
     """payload of the Ok value a function returns: Result::Ok{0: x} -> x ; `r.map(f)` as the returned value is
     `Ok(f(r?))`, so its payload is f applied to `r?`"""
@@ -106,7 +131,17 @@ def r1(prog, ev, rep):
         else:
             src, stages = PL.unwind(inner)
             names = [s[0] for s in stages]
-            if names != ["into_iter", "map", "collect"]:
+            lm = _loop_map_form(inner) if not names else None
+            if lm is not None:
+                # `let mut out = Vec::with_capacity(..); for item in js_path(..)? { out.push(item.<field>) }`: the same map as a loop
+                src_l, pushed, item = lm
+                okproj = pushed.k in ("field", "proj") and pushed.a[0] == item and str(pushed.a[1]).split(".")[-1] == field
+                oksrc = src_l.k == "try" and is_call(src_l.a[0], "crate::query::js_path") and is_param(src_l.a[0].a[1], 0) and is_param(src_l.a[0].a[2], 1)
+                if not oksrc:
+                    msg = "loop source is `%s`, expected `js_path(path, value)?`" % src_l
+                elif not okproj:
+                    msg = "the loop pushes `%s`, expected field %s of each result in order" % (pushed, field)
+            elif names != ["into_iter", "map", "collect"]:
                 msg = "pipeline is %s, expected into_iter -> map -> collect (no other adaptor)" % names
             elif not (src.k == "try" and is_call(src.a[0], "crate::query::js_path") and is_param(src.a[0].a[1], 0)
                       and is_param(src.a[0].a[2], 1)):
@@ -159,7 +194,10 @@ def r1(prog, ev, rep):
             comp = Tm("proj", (scrut, "Data::%s.0" % shape_name))
             if shape_name == "Ref":
                 good = pay is not None and is_call(pay, "<vec>") and len(pay.a) == 2 and _is_into(pay.a[1], comp)
-                rep.check(good, "C12-R1", key, prog.loc_of(p), "Ok(vec![p.into()])", "found `%s`" % body)
+                if not good and any(x.k in ("phi", "mutated", "loopvar") for x in subterms(body)):
+                    rep.unrecognised("C12-R1", key, prog.loc_of(p), "the conversion of a single result is written as a loop the rule cannot read: %s" % str(body)[:200])
+                else:
+                    rep.check(good, "C12-R1", key, prog.loc_of(p), "Ok(vec![p.into()])", "found `%s`" % body)
             elif shape_name == "Refs":
                 good = False
                 why = "found `%s`" % body
@@ -172,10 +210,16 @@ def r1(prog, ev, rep):
                         good = True
                     elif names:
                         why = "pipeline %s over `%s`" % (names, src)
-                rep.check(good, "C12-R1", key, prog.loc_of(p), "Ok(refs.into_iter().map(Into::into).collect())", why)
+                if not good and any(x.k in ("phi", "mutated", "loopvar") for x in subterms(body)):
+                    rep.unrecognised("C12-R1", key, prog.loc_of(p), "the conversion of the result list is written as a loop the rule cannot read: %s" % why[:200])
+                else:
+                    rep.check(good, "C12-R1", key, prog.loc_of(p), "Ok(refs.into_iter().map(Into::into).collect())", why)
             elif shape_name == "Nothing":
                 good = pay is not None and is_call(pay, "<vec>") and len(pay.a) == 1
-                rep.check(good, "C12-R1", key, prog.loc_of(p), "Ok(vec![])", "found `%s`" % body)
+                if not good and any(x.k in ("phi", "mutated", "loopvar") for x in subterms(body)):
+                    rep.unrecognised("C12-R1", key, prog.loc_of(p), "the conversion of an empty result is written as a loop the rule cannot read: %s" % str(body)[:200])
+                else:
+                    rep.check(good, "C12-R1", key, prog.loc_of(p), "Ok(vec![])", "found `%s`" % body)
             elif shape_name == "Value":
                 good = body.k == "adt" and body.a[1] == "Err"
                 rep.check(good, "C12-R1", key, prog.loc_of(p), "a fabricated value is never a result (Err)", "found `%s`" % body)
